@@ -52,6 +52,18 @@ def gen_frame(rng, big_ok=True):
     return [v] * n
 
 
+def wrap_age(rng):
+    """An age (microseconds) at or inside the range where a fixed-width counter of microseconds,
+    milliseconds or seconds would wrap or change sign: 2^k units -1/+0/+1 unit, +-1 us, plus the 2.5 s
+    boundary beyond it, or anywhere in [2^k, 2^(k+1)) units."""
+    unit = rng.choice([1, 1000, 1000, 10 ** 6])
+    bits = rng.choice([15, 16, 24, 31, 31, 31, 32, 32, 33])
+    base = (1 << bits) * unit
+    e = rng.choice([-unit, -1, 0, 1, unit - 1, unit, TIMEOUT - 1, TIMEOUT, TIMEOUT + 1,
+                    rng.randrange(base), rng.randrange(base)])
+    return max(0, base + e)
+
+
 def gen_history(rng, nops, big_ok=True):
     ops = []
     nports = rng.choice([1, 2, 2, 3, 3, 4])
@@ -108,8 +120,12 @@ def gen_history(rng, nops, big_ok=True):
             d = max(0, target - now)
         elif r < 0.9:
             d = rng.choice([TIMEOUT - 1, TIMEOUT, TIMEOUT + 1, 1250000, 2000000])
-        else:
+        elif r < 0.96:
             d = rng.choice([5000000, 10 ** 7, rng.randrange(1, 10 ** 7)])
+        else:
+            # a very long silence: the age of some source lands on a counter-wrap magnitude
+            t = rng.choice(list(last_ts.values())) if last_ts else now
+            d = max(0, t + wrap_age(rng) - now)
         now += d
 
     def stamp():
@@ -224,6 +240,59 @@ def gen_housekeeping(rng):
     return ' '.join(ops)
 
 
+def gen_long_silence(rng):
+    """Sources that stop for days/weeks (ages around 2^31/2^32 us, ms, s) while another source of the same
+    or a lower priority carries on: the silent one must stay out of the merge for ever."""
+    ops = []
+    port_ids = rng.sample(range(8), rng.choice([1, 2]))
+    client_ids = rng.sample(range(8), rng.choice([1, 2]))
+    out_ids = rng.sample(range(8), rng.choice([1, 2]))
+    sink_ids = rng.sample(range(8), rng.choice([0, 1]))
+    setup = [('ai', i) for i in port_ids] + [('ao', i) for i in out_ids] + [('ak', i) for i in sink_ids]
+    rng.shuffle(setup)
+    ops += ['%s,%d' % x for x in setup]
+    ops.append('mode,%d' % rng.choice([0, 0, 1]))
+    cprio = {c: rng.choice([100, 100, 100, 200, 101, 99]) for c in client_ids}
+    now = rng.choice([1, rng.randrange(1, 10 ** 7), rng.randrange(1, 10 ** 12)])
+    srcs = [('p', i) for i in port_ids] + [('c', c) for c in client_ids]
+
+    def send(src, ts):
+        k, i = src
+        fr = gen_frame(rng, False) or [6]
+        if k == 'p':
+            ops.append('pd,%d,%s,%d,%d' % (i, hx(fr), ts, now))
+        else:
+            ops.append('cd,%d,%s,%d,%d,%d' % (i, hx(fr), cprio[i], ts, now))
+
+    def poke(src):
+        k, i = src
+        ops.append(('pc,%d,%d' if k == 'p' else 'cc,%d,%d') % (i, now))
+
+    for s0 in srcs:
+        if rng.random() < 0.8:
+            send(s0, now)
+        now += rng.choice([0, 1, 1000, 100000])
+    for _ in range(rng.choice([1, 2, 3])):
+        silent = rng.sample(srcs, rng.choice([1, 1, 2]))
+        t0 = now
+        now = t0 + wrap_age(rng)
+        for s0 in srcs:
+            if s0 not in silent:
+                send(s0, now)
+        for s0 in silent:
+            if rng.random() < 0.6:
+                poke(s0)
+        if rng.random() < 0.5:
+            now += rng.choice([1, 1000, TIMEOUT - 1, TIMEOUT])
+            for s0 in srcs:
+                if s0 not in silent and rng.random() < 0.7:
+                    send(s0, now)
+        for s0 in silent:
+            if rng.random() < 0.5:
+                send(s0, now)
+    return ' '.join(ops)
+
+
 def gen_cases(rng, tier):
     quick = tier == 'quick'
     n = 4000 if quick else 200000
@@ -235,11 +304,15 @@ def gen_cases(rng, tier):
         yield gen_history(rng, rng.choice([8, 12, 20]), big_ok=False)
     for k in range(n // 8):
         yield gen_housekeeping(rng)
-    # raw struct timeval liveness (TimerAdd carry, timercmp, timerisset) around the 2.5 s boundary
     for k in range(n // 10):
-        ts = rng.choice([0, 1, 999999, 1000000, rng.randrange(10 ** 12)])
+        yield gen_long_silence(rng)
+    # raw struct timeval liveness (TimerAdd carry, timercmp, timerisset) around the 2.5 s boundary and at
+    # ages where a fixed-width counter of us / ms / s would wrap
+    for k in range(n // 8):
+        ts = rng.choice([0, 1, 999999, 1000000, rng.randrange(10 ** 12), (1 << 31) * 10 ** 6 - 1, rng.randrange(1 << 52)])
         tsec, tusec = ts // 10 ** 6, rng.choice([ts % 10 ** 6, 0, 499999, 500000, 500001, 999999])
-        d = rng.choice([0, 1, 2499999, 2500000, 2500001, 1999999, 2000000, 3000000, rng.randrange(5 * 10 ** 6)])
+        d = rng.choice([0, 1, 2499999, 2500000, 2500001, 1999999, 2000000, 3000000, rng.randrange(5 * 10 ** 6),
+                        wrap_age(rng), wrap_age(rng), wrap_age(rng)])
         now = tsec * 10 ** 6 + tusec + d - rng.choice([0, 0, 0, 2500000])
         now = max(0, now)
         yield 'tv %d %d %d %d' % (now // 10 ** 6, now % 10 ** 6, tsec, tusec)
@@ -253,7 +326,7 @@ def nontrivial(payload, md):
 
 RULE = ('random histories (1-40 ops after a random patching prologue) over <=4 input ports, <=3 source clients, '
         '<=3 output ports, <=3 sink clients (each with a scripted WriteDMX/SendDMX return value), SetDMX, both merge modes with switches mid-history; '
-        'housekeeping histories (CleanStaleSourceClients every 10 s, 2-4 runs, clients streaming every 0.5-2.4 s or going silent, another group member updating right after a run); priorities from '
+        'very long silences (ages at and inside 2^15..2^33 us/ms/s, i.e. where a fixed-width time counter wraps) in random histories, a long-silence family and the raw timeval cases; housekeeping histories (CleanStaleSourceClients every 10 s, 2-4 runs, clients streaming every 0.5-2.4 s or going silent, another group member updating right after a run); priorities from '
         '{0,1,99,100,101,199,200}+palette (+201/255 rarely), clock steps {0,1,2499999,2500000,2500001,...} '
         'including steps aimed at ts+2.5s-1/+0/+1 of an existing source, stamps equal/older/newer than the clock '
         'and unset, frame lengths {0,1..5,..,511,512,513}; class = set of merge outcomes reached '
